@@ -22,6 +22,36 @@ def _probe(cls, n):
     return pairs
 
 
+def _qscale_constants(CellBase):
+    import ast
+    import inspect
+    import textwrap
+    from fractions import Fraction
+
+    out = []
+    try:
+        tree = ast.parse(textwrap.dedent(inspect.getsource(CellBase.quality.fget)))
+        calls = [n for n in ast.walk(tree) if isinstance(n, ast.Call) and isinstance(n.func, ast.Name) and n.func.id == "q_scale"]
+        calls.sort(key=lambda n: (n.lineno, n.col_offset))
+        for c in calls:
+            triple = []
+            for a in c.args[:3]:
+                q = Fraction(float(ast.literal_eval(a)))
+                triple.append((q.numerator, q.denominator))
+            out.append(triple)
+    except Exception:
+        pass
+    return out
+
+
+def _mask_qscale(lines):
+    """the constants of the q_scale calls are tied by value (`c14QScale`), not by text"""
+    import re
+
+    num = r"-?\d+(?:\.\d*)?(?:e-?\d+)?"
+    return [re.sub(rf"q_scale\({num}, {num}, {num}, ", "q_scale(#, #, #, ", x) for x in lines]
+
+
 def emit_all(emit):
     from classy_blocks.optimize.cell import CellBase, HexCell, QuadCell
     from classy_blocks.optimize.grid import GridBase
@@ -32,7 +62,16 @@ def emit_all(emit):
          "corner pairs (a<b) measured by HexCell.get_edge_lengths, in the order returned (probe)")
     emit("quadAspectPairs", "List (Nat × Nat)", _probe(QuadCell, 4),
          "corner pairs (a<b) measured by QuadCell.get_edge_lengths, in the order returned (probe)")
-    emit("vsmallIs1em6", "Bool", bool(constants.VSMALL == 1e-6), "constants.VSMALL == 1e-6 (the guard the model hard-codes)")
+    emit("vsmallIs1em6", "Bool", bool(constants.VSMALL == 1e-6), "constants.VSMALL == 1e-6")
+    from fractions import Fraction
+
+    v = Fraction(float(constants.VSMALL))
+    emit("c14Vsmall", "Int × Nat", (v.numerator, v.denominator), "constants.VSMALL, exact value of the float (the model's guard)")
+    # the constant triples (base, exponent, factor) of the three `q_scale(...)` calls of CellBase.quality, in source order,
+    # exact values of the floats; the model computes with them.  Never fails: what cannot be read gives a shorter list,
+    # which the model refuses to compute with (`bad-op`, reported by the correspondence).
+    emit("c14QScale", "List (List (Int × Nat))", _qscale_constants(CellBase),
+         "q_scale(base, exponent, factor, ·) constants of non-orthogonality, inner angle and aspect term (ast on the source)")
 
     # the statement skeletons of the methods on the execution path of `CellBase.quality`, read off the current source
     # text with `ast` (see cbv/tables/c15.py: one string per statement, `depth:text`, locals renamed a0, a1, …); named by
@@ -57,4 +96,4 @@ def emit_all(emit):
         ("c14SrcJunctionQuality", lambda: Junction.quality, "Junction.quality"),
         ("c14SrcGridUpdate", lambda: GridBase.update, "GridBase.update"),
     ]:
-        guard(lambda name=name, get=get, doc=doc: emit(name, S, skeleton(get()), doc))
+        guard(lambda name=name, get=get, doc=doc: emit(name, S, _mask_qscale(skeleton(get())), doc))
